@@ -126,7 +126,7 @@ Proof. exact K_op_exec_end_success. Qed.
 (* ------------------------------------------------------------------------------------------ *)
 (* Abstract engine (model/Engine.v): static-DAG fragment                                       *)
 (* ------------------------------------------------------------------------------------------ *)
-From SV Require Import model.Engine proofs.EngineProofs.
+From SV Require Import model.Engine proofs.EngineProofs proofs.EngineRecProofs.
 
 (* The full statement, for ANY incremental build engine: after any sequence of worlds (a world =
    all source files including plan and step scripts, and the tracked environment), building the
@@ -194,6 +194,69 @@ Section StaticDag.
       C01_full_for empty_sys (build_world run proj) (same_result proj).
   Proof. intros proj H ws w. apply restart_equiv_scratch_static_dag. exact H. Qed.
 End StaticDag.
+
+(* The values recorded for tracked variables (table env_var, column value).  The code does not
+   compare the environment with "the previous environment" but with one recorded value per
+   (step, variable) row, which the startup rescan rewrites for the rows it found changed
+   (startup.rescan_env_vars).  [rsys] = [sys] + these rows, [resync_r] = the rescan on rows. *)
+
+(* After the rescan EVERY row of EVERY step holds the value the rescan saw -- for all projects,
+   states (whatever the rows held before) and worlds, and for steps with any number of tracked
+   variables of which any number changed. *)
+Theorem C01_rescan_records_every_tracked_variable :
+  forall (proj : project) (y : rsys) (w : world) (s : step) (n : N),
+    In s proj -> In n (envn s) -> rrec (resync_r proj y w) (sid s) n = snd w n.
+Proof. exact resync_r_records_all. Qed.
+
+(* On a state whose rows hold the environment of the previous build, the rescan on rows is the
+   rescan [resync] of the theorems above. *)
+Theorem C01_rescan_with_recorded_values_is_resync :
+  forall (proj : project) (y : rsys) (w : world),
+    RecOK proj y -> rbase (resync_r proj y w) = resync proj (rbase y) w.
+Proof. exact resync_r_base. Qed.
+
+Section Recorded.
+  Variable run : N -> list (option N) -> list (option N) -> N -> N.
+
+  (* Detection: after ANY build of a world w1 (no assumption on the state before it), a restart
+     on a world w2 that differs from w1 in a variable tracked by a step marks that step PENDING:
+     whatever the other variables of the step do, and whether the new value is fresh or one the
+     variable had in an earlier build (A -> B -> A over any subset of the variables). *)
+  Theorem C01_restart_detects_every_tracked_variable :
+    forall (proj : project) (y : rsys) (w1 w2 : world) (s : step) (n : N),
+      wf proj = true -> In s proj -> In n (envn s) -> snd w2 n <> snd w1 n ->
+      stt (rbase (resync_r proj (build_world_r run proj w1 y) w2)) (sid s) = Pending.
+  Proof.
+    intros proj y w1 w2 s n H. apply restart_detects_every_tracked_variable.
+    destruct (wf_WF proj H) as [Hnd _]. exact Hnd.
+  Qed.
+
+  (* Restart flavour, engine with rows: the full statement on every static DAG. *)
+  Theorem C01_full_for_static_dag_recorded_partial :
+    forall (proj : project),
+      wf proj = true ->
+      C01_full_for empty_rsys (build_world_r run proj)
+                   (fun a b => same_result proj (rbase a) (rbase b)).
+  Proof. intros proj H ws w. apply restart_recorded_equiv_scratch. exact H. Qed.
+End Recorded.
+
+(* With a write-back of ONE row per step (the list of triples replaced by a dictionary keyed by
+   the step) the statement is false: a step tracking two variables, built with (1, 1), then
+   (2, 2), then (1, 2): the row of the first variable still holds 1 after the second build, the
+   third start sees no change, nothing runs, the output of (2, 2) is kept; from scratch (1, 2). *)
+Theorem C01_env_writeback_one_per_step_refuted :
+  let w := ab_world 1 2 in
+  let one := build_world_with mix_run resync_r_one ab_proj w (ab_after2 resync_r_one) in
+  let all := build_world_with mix_run resync_r ab_proj w (ab_after2 resync_r) in
+  let scr := build_world_r mix_run ab_proj w empty_rsys in
+  wf ab_proj = true /\
+  rrec (ab_after2 resync_r_one) 1 7 = Some 1 /\ rrec (ab_after2 resync_r_one) 1 8 = Some 2 /\
+  rrec (ab_after2 resync_r) 1 7 = Some 2 /\ rrec (ab_after2 resync_r) 1 8 = Some 2 /\
+  build_log mix_run ab_proj ab_proj (rbase (resync_r_one ab_proj (ab_after2 resync_r_one) w)) = [] /\
+  build_log mix_run ab_proj ab_proj (rbase (resync_r ab_proj (ab_after2 resync_r) w)) = [(1, true)] /\
+  same_result_b ab_proj (rbase one) (rbase scr) = false /\
+  same_result_b ab_proj (rbase all) (rbase scr) = true.
+Proof. exact writeback_one_per_step_refuted. Qed.
 
 (* What the two static-DAG theorems leave out of C01: (1) dynamic workflows.  Plan edits that add,
    drop or redefine steps BETWEEN builds, with recycling, are covered further down
